@@ -188,6 +188,12 @@ inductive Step where
   | retained (id off len : Nat) (s : SendState)
   deriving Repr, DecidableEq, Inhabited
 
+/-- The send state of the entry a step refers to. -/
+def Step.state : Step → SendState
+  | .control _ s => s
+  | .release _ _ s => s
+  | .retained _ _ _ s => s
+
 def nextStepPrio (o : Outbound) (inProgress : Bool) : Option Step :=
   match o.control.find? (fun e => e.state.matchesPriority inProgress) with
   | some e => some (.control e.action e.state)
